@@ -5,12 +5,18 @@ import DesyncModel.Generated
 namespace Desync
 open Gen
 
-/-- The crate's `unsafe` sites are exactly the ones the protocol theorems of C14 are about: in `desync.rs` the three
-`Send`/`Sync` impls, the five `&mut *data` dereferences inside scheduled closures and the two `Box::from_raw` inside the free job
-of `Drop`; in `desync_scheduler.rs` the two constructions of a lifetime-erased job (`sync_drain`, `sync_background`); in
-`unsafe_job.rs` the two constructors, the `Send` impl and the call through the erased pointer.  A new site (or one that moved to
-another file) is code the model does not speak about. -/
-theorem unsafe_sites_are_the_modelled_ones :
-    unsafeSites = [("desync.rs", 10), ("scheduler/desync_scheduler.rs", 2), ("scheduler/unsafe_job.rs", 4)] := by decide
+/-- The `unsafe` sites the protocol theorems of C14 are about: in `desync.rs` the three `Send`/`Sync` impls, the five `&mut *data`
+dereferences inside scheduled closures and the two `Box::from_raw` inside the free job of `Drop`; in `desync_scheduler.rs` the two
+constructions of a lifetime-erased job (`sync_drain`, `sync_background`); in `unsafe_job.rs` the two constructors, the `Send` impl
+and the call through the erased pointer. -/
+def unsafeInventory : List (String × Nat) := [("desync.rs", 10), ("scheduler/desync_scheduler.rs", 2), ("scheduler/unsafe_job.rs", 4)]
+
+/-- how many `unsafe` occurrences the inventory allows in a file -/
+def unsafeAllowed (file : String) : Nat := ((unsafeInventory.lookup file).getD 0)
+
+/-- The crate's `unsafe` sites stay within that inventory: no file contains more `unsafe` (blocks, fns, impls) than the inventory
+lists for it, and no other file contains any.  A new site is code the model does not speak about.  (Fewer sites — two closures
+merged into one, say — are within the inventory.) -/
+theorem unsafe_sites_are_the_modelled_ones : unsafeSites.all (fun p => decide (p.2 ≤ unsafeAllowed p.1)) = true := by decide
 
 end Desync
